@@ -38,7 +38,8 @@ LEVEL_TEXT = ('All 513 reaction rows (exhaustive over rows) are evaluated throug
               'selection and abundance weighting.  Numbers are handed over as Python int / float and numpy '
               'int64 / int32 / float64 / float32 scalars (integers up to 1e16 n/cm2/s), rest times as list / tuple / '
               'numpy array; Sample objects are re-read after later calculations on other objects and re-used for '
-              'several calculations.  Environments are sampled, so the claim is exploration.')
+              'several calculations.  Environments are sampled, so the claim is exploration.'
+              ' Added in rounds 4-7: ion atoms in sample formulas, environments built positionally, refused calculations on the judged Sample, judged calculation on a clone of an earlier Sample.')
 LEVEL_NOTE = ('Trusted: mpmath, the csv-based reader pvmon/ref/activation_ref.py, pvmon/ref/masses.py, the spreadsheet '
               'constant 1.6278e19 and the documented selection rules (Cd ratio >= 1, fast ratio) as specification. '
               'Tolerance 1e-5 relative with 1e-300 absolute floor (DESIGN 5 C14); worst error per branch is reported.')
